@@ -23,6 +23,7 @@ DATA_DEPTH = {
     "runtime::Value::promote": "recursion over array nesting depth of a run-time value",
     "<runtime::Value as std::fmt::Display>::fmt": "recursion over array nesting depth of a run-time value",
     "builtins::array::ArrayBuiltin::join": "recursion over array nesting depth of a run-time value",
+    "runtime::Value::detach": "recursion over array nesting depth of a run-time value",
 }
 
 
